@@ -81,12 +81,16 @@ structure Inv (s : TM) : Prop where
   entry : ∀ k id e, (id, e) ∈ s.forks k → s.tasks id = some e ∧ k ∈ e.task.keys
   /-- the executing task stored under `id` has that id -/
   owner : ∀ id e, s.tasks id = some e → e.task.id = id
-  /-- an executing task is registered under every one of its keys -/
-  reg : ∀ id e, s.tasks id = some e → ∀ k ∈ e.task.keys, (id, e) ∈ s.forks k
+  /-- a LIVE task (one that still has fork keys) is registered under every one of its keys -/
+  reg : ∀ id e, s.tasks id = some e → s.forkKeysOf id ≠ [] → ∀ k ∈ e.task.keys, (id, e) ∈ s.forks k
   /-- inner maps are maps -/
   nodup : ∀ k, ((s.forks k).map (·.1)).Nodup
   /-- `taskToForkKeys` lists every key under which the id is registered -/
   listed : ∀ k id e, (id, e) ∈ s.forks k → k ∈ s.forkKeysOf id
+  /-- ids with fork keys have been through `newFork` -/
+  dom : ∀ id, s.forkKeysOf id ≠ [] → id ∈ s.everForked
+  /-- only ids in `tm.tasks` hold fork keys -/
+  keysTask : ∀ id, s.forkKeysOf id ≠ [] → s.tasks id ≠ none
 
 theorem Inv.init (rp : String) : Inv (init rp) := by
   constructor <;> simp [Kap.C02.init]
@@ -98,52 +102,73 @@ theorem Inv.withEvents {s : TM} (h : Inv s) (evs) : Inv (s.withEvents evs) := by
   · exact h.reg
   · exact h.nodup
   · exact h.listed
+  · exact h.dom
+  · exact h.keysTask
 
-theorem Inv.forkPoint {s : TM} (h : Inv s) (p : Point) : Inv (forkPoint s p) := by
+theorem Inv.forkPoint {s : TM} (h : Inv s) (p : Point) : Inv (Kap.C02.forkPoint s p) := by
   rw [forkPoint_eq]; exact h.withEvents _
 
-/-- No entry for an id that is not executing. -/
-theorem Inv.no_entry {s : TM} (h : Inv s) {id : String} (hn : s.tasks id = none) (k : Key) :
+/-- No entry for an id that is not live. -/
+theorem Inv.no_entry {s : TM} (h : Inv s) {id : String} (hn : s.isLive id = false) (k : Key) :
     ∀ x ∈ s.forks k, x.1 ≠ id := by
   intro x hx hxi
-  have := (h.entry k x.1 x.2 hx).1
-  rw [hxi, hn] at this
-  cases this
+  have h1 := (h.entry k x.1 x.2 hx).1
+  have h2 := h.listed k x.1 x.2 hx
+  rw [hxi] at h1 h2
+  simp only [TM.isLive, h1, Option.isSome_some, Bool.true_and, Bool.not_eq_false', List.isEmpty_iff] at hn
+  rw [hn] at h2
+  cases h2
+
+/-- An id that is not live holds no fork keys. -/
+theorem Inv.notLive_keys {s : TM} (h : Inv s) {id : String} (hn : s.isLive id = false) : s.forkKeysOf id = [] := by
+  cases hk : s.forkKeysOf id with
+  | nil => rfl
+  | cons a b =>
+    exfalso
+    have h1 := h.keysTask id (by simp [hk])
+    cases ht : s.tasks id with
+    | none => exact h1 ht
+    | some e => simp [TM.isLive, ht, hk] at hn
 
 /-! ### `startTask` -/
 
 theorem startTask_nodbrp {s : TM} {d : TaskDef} (h : d.dbrps = []) : startTask s d = s := by
   simp [startTask, h]
 
-theorem startTask_executing {s : TM} {d : TaskDef} (h : (s.tasks d.id).isSome = true) : startTask s d = s := by
+theorem startTask_executing {s : TM} {d : TaskDef} (h : s.isLive d.id = true) : startTask s d = s := by
   unfold startTask
   by_cases hd : d.dbrps.isEmpty = true <;> simp [hd, h]
 
-theorem startTask_forks {s : TM} {d : TaskDef} (h : d.dbrps ≠ []) (hn : s.tasks d.id = none) (k : Key) :
+theorem startTask_forks {s : TM} {d : TaskDef} (h : d.dbrps ≠ []) (hn : s.isLive d.id = false) (k : Key) :
     (startTask s d).forks k =
       if k ∈ d.keys then insertTask (s.forks k) d.id ⟨s.nextEdge, d⟩ else s.forks k := by
   have : d.dbrps.isEmpty = false := by simpa using h
   simp [startTask, this, hn, newFork, registerKeys_forks]
 
-theorem startTask_tasks {s : TM} {d : TaskDef} (h : d.dbrps ≠ []) (hn : s.tasks d.id = none) :
+theorem startTask_tasks {s : TM} {d : TaskDef} (h : d.dbrps ≠ []) (hn : s.isLive d.id = false) :
     (startTask s d).tasks = upd s.tasks d.id (some ⟨s.nextEdge, d⟩) := by
   have : d.dbrps.isEmpty = false := by simpa using h
   simp [startTask, this, hn, newFork]
 
-theorem startTask_keysOf {s : TM} {d : TaskDef} (h : d.dbrps ≠ []) (hn : s.tasks d.id = none) (id : String) :
+theorem startTask_keysOf {s : TM} {d : TaskDef} (h : d.dbrps ≠ []) (hn : s.isLive d.id = false) (id : String) :
     (startTask s d).forkKeysOf id = if id = d.id then s.forkKeysOf d.id ++ d.keys else s.forkKeysOf id := by
   have : d.dbrps.isEmpty = false := by simpa using h
   simp [startTask, this, hn, newFork, registerKeys_keysOf]
 
+theorem startTask_everForked {s : TM} {d : TaskDef} (h : d.dbrps ≠ []) (hn : s.isLive d.id = false) :
+    (startTask s d).everForked = s.everForked ++ [d.id] := by
+  have : d.dbrps.isEmpty = false := by simpa using h
+  simp [startTask, this, hn, newFork]
+
 theorem startTask_log (s : TM) (d : TaskDef) : (startTask s d).log = s.log := by
   unfold startTask
-  by_cases h : d.dbrps.isEmpty = true <;> by_cases h2 : (s.tasks d.id).isSome = true <;> simp [h, h2, newFork]
+  by_cases h : d.dbrps.isEmpty = true <;> by_cases h2 : s.isLive d.id = true <;> simp [h, h2, newFork]
 
 theorem startTask_defaultRP (s : TM) (d : TaskDef) : (startTask s d).defaultRP = s.defaultRP := by
   unfold startTask
-  by_cases h : d.dbrps.isEmpty = true <;> by_cases h2 : (s.tasks d.id).isSome = true <;> simp [h, h2, newFork]
+  by_cases h : d.dbrps.isEmpty = true <;> by_cases h2 : s.isLive d.id = true <;> simp [h, h2, newFork]
 
-theorem mem_startTask_forks {s : TM} {d : TaskDef} (h : d.dbrps ≠ []) (hn : s.tasks d.id = none) {k : Key} {x : String × Edge} :
+theorem mem_startTask_forks {s : TM} {d : TaskDef} (h : d.dbrps ≠ []) (hn : s.isLive d.id = false) {k : Key} {x : String × Edge} :
     x ∈ (startTask s d).forks k ↔
       (x ∈ s.forks k ∧ (k ∈ d.keys → x.1 ≠ d.id)) ∨ (k ∈ d.keys ∧ x = (d.id, ⟨s.nextEdge, d⟩)) := by
   rw [startTask_forks h hn]
@@ -151,7 +176,7 @@ theorem mem_startTask_forks {s : TM} {d : TaskDef} (h : d.dbrps ≠ []) (hn : s.
   · simp [hk, mem_insertTask]
   · simp [hk]
 
-theorem Inv.startTask {s : TM} (hi : Inv s) {d : TaskDef} (hn : s.tasks d.id = none) : Inv (startTask s d) := by
+theorem Inv.startTask {s : TM} (hi : Inv s) {d : TaskDef} (hn : s.isLive d.id = false) : Inv (Kap.C02.startTask s d) := by
   by_cases hd : d.dbrps = []
   · rw [startTask_nodbrp hd]; exact hi
   have hold : ∀ k, ∀ x ∈ s.forks k, x.1 ≠ d.id := fun k => hi.no_entry hn k
@@ -172,7 +197,7 @@ theorem Inv.startTask {s : TM} (hi : Inv s) {d : TaskDef} (hn : s.tasks d.id = n
       rw [← ht]
     · simp [upd, hid] at ht
       exact hi.owner id e ht
-  · intro id e ht k hk
+  · intro id e ht hk0 k hk
     rw [startTask_tasks hd hn] at ht
     apply (mem_startTask_forks hd hn).mpr
     by_cases hid : id = d.id
@@ -181,8 +206,10 @@ theorem Inv.startTask {s : TM} (hi : Inv s) {d : TaskDef} (hn : s.tasks d.id = n
       subst ht
       right; exact ⟨hk, rfl⟩
     · simp [upd, hid] at ht
+      rw [startTask_keysOf hd hn] at hk0
+      simp only [hid, if_false] at hk0
       left
-      exact ⟨hi.reg id e ht k hk, fun _ => hid⟩
+      exact ⟨hi.reg id e ht hk0 k hk, fun _ => hid⟩
   · intro k
     rw [startTask_forks hd hn]
     by_cases hk : k ∈ d.keys
@@ -195,8 +222,88 @@ theorem Inv.startTask {s : TM} (hi : Inv s) {d : TaskDef} (hn : s.tasks d.id = n
       simp [hne]; exact hi.listed k id e hm'
     · obtain ⟨rfl, rfl⟩ := Prod.mk.inj heq
       simp [hk]
+  · intro id hk0
+    rw [startTask_everForked hd hn]
+    rw [startTask_keysOf hd hn] at hk0
+    by_cases hid : id = d.id
+    · simp [hid]
+    · simp only [hid, if_false] at hk0
+      exact List.mem_append_left _ (hi.dom id hk0)
+  · intro id hk0
+    rw [startTask_tasks hd hn]
+    rw [startTask_keysOf hd hn] at hk0
+    by_cases hid : id = d.id
+    · simp [hid, upd]
+    · simp only [hid, if_false] at hk0
+      simp only [upd, hid, if_false]
+      exact hi.keysTask id hk0
 
-/-! ### `stopTask` -/
+/-! ### `delFork` and `stopTask` -/
+
+theorem delFork_forks (s : TM) (id : String) (k : Key) :
+    (delFork s id).forks k = if k ∈ s.forkKeysOf id then eraseTask (s.forks k) id else s.forks k := by
+  simp [delFork, delForkLoop_forks]
+
+theorem delFork_keysOf (s : TM) (id : String) : (delFork s id).forkKeysOf = upd s.forkKeysOf id [] := rfl
+theorem delFork_tasks (s : TM) (id : String) : (delFork s id).tasks = s.tasks := rfl
+theorem delFork_log (s : TM) (id : String) : (delFork s id).log = s.log := rfl
+theorem delFork_defaultRP (s : TM) (id : String) : (delFork s id).defaultRP = s.defaultRP := rfl
+theorem delFork_everForked (s : TM) (id : String) : (delFork s id).everForked = s.everForked := rfl
+theorem delFork_nextEdge (s : TM) (id : String) : (delFork s id).nextEdge = s.nextEdge := rfl
+theorem delFork_sent (s : TM) (id : String) : (delFork s id).sentOnClosed = s.sentOnClosed := rfl
+
+/-- After `delFork`, the table holds exactly the entries of the other ids. -/
+theorem mem_delFork_forks {s : TM} (hi : Inv s) (id : String) {k : Key} {x : String × Edge} :
+    x ∈ (delFork s id).forks k ↔ x ∈ s.forks k ∧ x.1 ≠ id := by
+  rw [delFork_forks]
+  by_cases hk : k ∈ s.forkKeysOf id
+  · simp [hk, mem_eraseTask]
+  · simp only [hk, if_false]
+    constructor
+    · intro hx
+      refine ⟨hx, fun hxi => hk ?_⟩
+      have := hi.listed k x.1 x.2 hx
+      rwa [hxi] at this
+    · exact fun hx => hx.1
+
+theorem Inv.delFork {s : TM} (hi : Inv s) (id : String) : Inv (Kap.C02.delFork s id) := by
+  constructor
+  · intro k id1 e hm
+    obtain ⟨hm', _⟩ := (mem_delFork_forks hi id).mp hm
+    rw [delFork_tasks]; exact hi.entry k id1 e hm'
+  · intro id1 e h1
+    rw [delFork_tasks] at h1; exact hi.owner id1 e h1
+  · intro id1 e h1 hk0 k hk
+    rw [delFork_tasks] at h1
+    rw [delFork_keysOf] at hk0
+    by_cases hid : id1 = id
+    · simp [upd, hid] at hk0
+    · simp only [upd, hid, if_false] at hk0
+      exact (mem_delFork_forks hi id).mpr ⟨hi.reg id1 e h1 hk0 k hk, hid⟩
+  · intro k
+    rw [delFork_forks]
+    by_cases hk : k ∈ s.forkKeysOf id
+    · simp only [hk, if_true]; exact keys_nodup_filter _ (hi.nodup k)
+    · simp only [hk, if_false]; exact hi.nodup k
+  · intro k id1 e hm
+    obtain ⟨hm', hne⟩ := (mem_delFork_forks hi id).mp hm
+    have hne' : id1 ≠ id := hne
+    rw [delFork_keysOf]
+    simp [upd, hne']; exact hi.listed k id1 e hm'
+  · intro id1 hk0
+    rw [delFork_everForked]
+    rw [delFork_keysOf] at hk0
+    by_cases hid : id1 = id
+    · simp [upd, hid] at hk0
+    · simp only [upd, hid, if_false] at hk0
+      exact hi.dom id1 hk0
+  · intro id1 hk0
+    rw [delFork_tasks]
+    rw [delFork_keysOf] at hk0
+    by_cases hid : id1 = id
+    · simp [upd, hid] at hk0
+    · simp only [upd, hid, if_false] at hk0
+      exact hi.keysTask id1 hk0
 
 theorem stopTask_idle {s : TM} {id : String} (h : s.tasks id = none) : stopTask s id = s := by
   simp [stopTask, h]
@@ -212,6 +319,10 @@ theorem stopTask_tasks {s : TM} {id : String} {e : Edge} (h : s.tasks id = some 
 theorem stopTask_keysOf {s : TM} {id : String} {e : Edge} (h : s.tasks id = some e) :
     (stopTask s id).forkKeysOf = upd s.forkKeysOf id [] := by
   simp [stopTask, h, delFork]
+
+theorem stopTask_everForked (s : TM) (id : String) : (stopTask s id).everForked = s.everForked := by
+  unfold stopTask
+  cases h : s.tasks id <;> simp [delFork]
 
 theorem stopTask_log (s : TM) (id : String) : (stopTask s id).log = s.log := by
   unfold stopTask
@@ -235,7 +346,7 @@ theorem mem_stopTask_forks {s : TM} (hi : Inv s) {id : String} {e : Edge} (h : s
       rwa [hxi] at this
     · exact fun hx => hx.1
 
-theorem Inv.stopTask {s : TM} (hi : Inv s) (id : String) : Inv (stopTask s id) := by
+theorem Inv.stopTask {s : TM} (hi : Inv s) (id : String) : Inv (Kap.C02.stopTask s id) := by
   cases ht : s.tasks id with
   | none => rw [stopTask_idle ht]; exact hi
   | some e0 =>
@@ -251,12 +362,14 @@ theorem Inv.stopTask {s : TM} (hi : Inv s) (id : String) : Inv (stopTask s id) :
       by_cases hid : id1 = id
       · simp [upd, hid] at h1
       · simp [upd, hid] at h1; exact hi.owner id1 e h1
-    · intro id1 e h1 k hk
+    · intro id1 e h1 hk0 k hk
       rw [stopTask_tasks ht] at h1
+      rw [stopTask_keysOf ht] at hk0
       by_cases hid : id1 = id
       · simp [upd, hid] at h1
       · simp [upd, hid] at h1
-        exact (mem_stopTask_forks hi ht).mpr ⟨hi.reg id1 e h1 k hk, hid⟩
+        simp only [upd, hid, if_false] at hk0
+        exact (mem_stopTask_forks hi ht).mpr ⟨hi.reg id1 e h1 hk0 k hk, hid⟩
     · intro k
       rw [stopTask_forks ht]
       by_cases hk : k ∈ s.forkKeysOf id
@@ -267,5 +380,60 @@ theorem Inv.stopTask {s : TM} (hi : Inv s) (id : String) : Inv (stopTask s id) :
       have hne' : id1 ≠ id := hne
       rw [stopTask_keysOf ht]
       simp [upd, hne']; exact hi.listed k id1 e hm'
+    · intro id1 hk0
+      rw [stopTask_everForked]
+      rw [stopTask_keysOf ht] at hk0
+      by_cases hid : id1 = id
+      · simp [upd, hid] at hk0
+      · simp only [upd, hid, if_false] at hk0
+        exact hi.dom id1 hk0
+    · intro id1 hk0
+      rw [stopTask_tasks ht]
+      rw [stopTask_keysOf ht] at hk0
+      by_cases hid : id1 = id
+      · simp [upd, hid] at hk0
+      · simp only [upd, hid, if_false] at hk0 ⊢
+        exact hi.keysTask id1 hk0
+
+/-! ### `drain` -/
+
+theorem foldl_delFork_inv (l : List String) : ∀ s : TM, Inv s → Inv (l.foldl delFork s) := by
+  induction l with
+  | nil => intro s hi; exact hi
+  | cons id rest ih => intro s hi; exact ih _ (hi.delFork id)
+
+theorem foldl_delFork_keysOf (l : List String) (id : String) :
+    ∀ s : TM, (l.foldl delFork s).forkKeysOf id = if id ∈ l then [] else s.forkKeysOf id := by
+  induction l with
+  | nil => intro s; simp
+  | cons x rest ih =>
+    intro s
+    rw [List.foldl_cons, ih, delFork_keysOf]
+    by_cases h1 : id ∈ rest
+    · simp [h1]
+    · by_cases h2 : id = x
+      · simp [h2, upd]
+      · simp [h1, h2, upd]
+
+theorem foldl_delFork_fields (l : List String) :
+    ∀ s : TM, (l.foldl delFork s).tasks = s.tasks ∧ (l.foldl delFork s).log = s.log ∧
+      (l.foldl delFork s).defaultRP = s.defaultRP ∧ (l.foldl delFork s).everForked = s.everForked ∧
+      (l.foldl delFork s).nextEdge = s.nextEdge ∧ (l.foldl delFork s).sentOnClosed = s.sentOnClosed := by
+  induction l with
+  | nil => intro s; simp
+  | cons x rest ih => intro s; rw [List.foldl_cons]; exact ih _
+
+theorem Inv.drain {s : TM} (hi : Inv s) : Inv (Kap.C02.drain s) := foldl_delFork_inv _ s hi
+
+/-- After a drain nobody holds a fork key: no id is live. -/
+theorem drain_keysOf {s : TM} (hi : Inv s) (id : String) : (drain s).forkKeysOf id = [] := by
+  unfold drain
+  rw [foldl_delFork_keysOf]
+  by_cases h : id ∈ s.everForked
+  · simp [h]
+  · simp only [h, if_false]
+    cases hk : s.forkKeysOf id with
+    | nil => rfl
+    | cons a b => exact absurd (hi.dom id (by simp [hk])) h
 
 end Kap.C02
